@@ -26,7 +26,13 @@ pub const SPECIAL: &[u8] = &[0x00, b'&', b'%', b'+', b'=', b' ', 0xff, b'?', b'#
 
 fn strategy(wire: bool) -> BoxedStrategy<Case> {
     let host = if wire { Just("127.0.0.1".to_string()).boxed() } else { prop_oneof![Just("tracker.example".to_string()), Just("127.0.0.1".to_string()), "[a-z]{1,8}\\.[a-z]{2,3}"].boxed() };
-    let kv = ("[a-z]{1,6}", "[a-zA-Z0-9]{0,8}");
+    let key = prop_oneof![
+        2 => "[a-z]{1,6}".boxed(),
+        2 => prop::sample::select(vec![
+            "passport", "transport", "support", "cleft", "xleft", "xpeer_id", "peer_idx", "nevent", "eventx", "xinfo_hash", "info_hashx", "unuploaded", "redownloaded", "numwantx", "passkey", "key", "compact",
+        ]).prop_map(|s| s.to_string()).boxed(),
+    ];
+    let kv = (key, "[a-zA-Z0-9]{0,8}");
     (
         host,
         prop_oneof![Just(None), (1024u16..65535).prop_map(Some)],
@@ -176,6 +182,11 @@ fn classify(c: &Case, hash: &[u8; 20], o: &mut Outcome) {
     }
     o.class_if(hash.iter().any(|b| *b >= 0x80), "hash-non-utf8");
     o.class_if(c.total_len >= 1 << 32, "length>=2^32");
+    let own = ["peer_id", "port", "left", "event", "info_hash", "uploaded", "downloaded", "numwant"];
+    o.class_if(
+        c.query.as_ref().map(|q| q.iter().any(|(k, _)| own.iter().any(|p| k.contains(p) && k != p))).unwrap_or(false),
+        "existing-key-contains-client-parameter-name",
+    );
 }
 
 pub fn check_pure(c: &Case) -> Outcome {
@@ -288,7 +299,7 @@ pub fn def() -> PropDef {
                 cases: |t| t.pick(800, 15_000),
                 run: |ctx| run_proptest(ctx, "wire", strategy(true), check_wire),
                 replay: |v| replay_case::<Case>(v, check_wire),
-                min_class: &[("announce-with-query", 0.2047), ("hash-with-special-byte", 0.4422)],
+                min_class: &[("announce-with-query", 0.2047), ("hash-with-special-byte", 0.4422), ("existing-key-contains-client-parameter-name", 0.1)],
             },
         ],
     }
